@@ -33,6 +33,9 @@ def build(seed):
     sx = seed % 997
     nm = rng.randint(3, 6)
     mods = [f"gm{sx}x{i}" for i in range(nm)]
+    if seed % 6 == 0:
+        # a project module named like a module FORD knows as external by default (a serial stub shipped with the code): it is the project's module
+        mods[rng.randrange(nm)] = ["mpi", "omp_lib", "openacc", "mpi_f08"][(seed // 6) % 4]
     uses = {m: set() for m in mods}
     shape = rng.choice(["random", "chain", "diamond", "disconnected"])
     for j in range(nm):
@@ -169,6 +172,10 @@ def build(seed):
     return model
 
 
+def hash_(*a):
+    return int(core.h(list(a))[:6], 16)
+
+
 def render(model):
     files = {}
 
@@ -183,7 +190,11 @@ def render(model):
     units = {}
     for m in model["mods"]:
         L = [f"module {m}"] + docs(m)
-        for u in sorted(model["uses"][m]):
+        for ui, u in enumerate(sorted(model["uses"][m])):
+            # sometimes two USE statements for one module: an ONLY list first, everything after it
+            first = [t for t, td in model["types"].items() if td["mod"] == u][:1] + [q for q, pd in model["procs"].items() if pd["mod"] == u and q not in model.get("hidden", ())][:1]
+            if first and (hash_(m, u) % 3 == 0):
+                L.append(f"use {u}, only: {first[0]}")
             L.append(f"use {u}")
         L.append("implicit none")
         for t, td in model["types"].items():
@@ -467,6 +478,23 @@ def run_case(item):
                 html = str(g)
             except Exception:  # noqa: BLE001
                 html = ""
+            if "<svg" in html:
+                # the drawn picture: one <g class="edge"> with <title>tail->head</title> per edge of the DOT source
+                import html as _html
+
+                drawn = set()
+                for t, body in re.findall(r'<g id="[^"]*edge\d+" class="edge">\s*<title>(.*?)</title>(.*?)</g>', html, re.S):
+                    a, _, b = _html.unescape(t).partition("->")
+                    a, b = a.strip().split(":")[0], b.strip().split(":")[0]
+                    drawn.add((a, b))
+                    if body.count("<polygon") >= 2:
+                        drawn.add((b, a))  # (graphviz `concentrate` draws an opposite pair as one line with an arrowhead at each end)
+                src_edges = set(G[key][1])
+                res["svg_checked"] = res.get("svg_checked", 0) + 1
+                res["svg_edges"] = res.get("svg_edges", 0) + len(drawn)
+                lost = sorted(e for e in src_edges if e not in drawn)
+                if lost:
+                    res.setdefault("svg_lost", []).append((key, lost[:4], len(src_edges), len(drawn), (lost[0][1], lost[0][0]) in src_edges))
             if '<table class="graph">' in html:
                 # table form (first hop too large to draw): one row per edge of the first hop
                 table = html[html.index('<table class="graph">'):html.index("</table>")]
@@ -669,10 +697,13 @@ def case(seed):
     for key, rows, nedge in r.get("table_rows", []):
         if rows != nedge:
             report({"kind": "graph_table_rows_differ_from_first_hop_edges", "graph": key.split("|")[1]}, {"graph": key, "rows": rows, "first_hop_edges": nedge})
+    for key, lost, nsrc, ndrawn, opposite in r.get("svg_lost", [])[:5]:
+        report({"kind": "edge_of_the_graph_missing_from_the_drawn_picture", "graph": key.split("|")[1], "opposite_edge_present": opposite},
+               {"graph": key, "edges_not_drawn": lost, "edges_in_source": nsrc, "edges_drawn": ndrawn})
     for key, url in r.get("not_on_page", [])[:5]:
         report({"kind": "graph_missing_from_the_page_of_its_entity", "graph": key.split("|")[1]}, {"graph": key, "page": url})
     nontrivial = max((len(v[1]) for k, v in exp.items() if isinstance(v, tuple) and len(v) == 4), default=0) >= 3
-    return {"viol": viol, "ngraphs": ngraphs, "nedges": nedges, "cfg": cfg, "nontrivial": nontrivial, "hash": core.h([files, cfg]), "adj": r.get("adjacency_checked", 0), "ntables": len(r.get("table_rows", [])), "nonpage": r.get("on_page_checked", 0),
+    return {"viol": viol, "ngraphs": ngraphs, "nedges": nedges, "cfg": cfg, "nontrivial": nontrivial, "hash": core.h([files, cfg]), "adj": r.get("adjacency_checked", 0), "ntables": len(r.get("table_rows", [])), "nonpage": r.get("on_page_checked", 0), "nsvg": r.get("svg_checked", 0), "nsvgedges": r.get("svg_edges", 0),
             "sample": {"seed": seed, "shape": model["shape"], "modules": model["mods"], "uses": {k: sorted(v) for k, v in model["uses"].items()},
                        "graphs_compared": ngraphs, "example_graph": {k: v for k, v in list(G.items())[:1]}}}
 
@@ -713,11 +744,13 @@ def main():
         run.count("inverse_adjacency_pairs_checked", r["adj"])
         run.count("graphs_rendered_as_tables_checked", r.get("ntables", 0))
         run.count("graphs_looked_up_on_their_pages", r.get("nonpage", 0))
+        run.count("drawn_pictures_compared_with_their_source", r.get("nsvg", 0))
+        run.count("edges_found_in_drawn_pictures", r.get("nsvgedges", 0))
         run.seen("shapes", r["cfg"]["shape"])
         for v in r["viol"]:
             run.violation(v["kf"], v["w"])
     run.max_samples = 1
-    run.finish(floors={"evaluations": 100, "distinct_nontrivial": 60, "graphs_compared": 1500, "expected_edges": 1500, "inverse_adjacency_pairs_checked": 1000, "shapes": 4})
+    run.finish(floors={"evaluations": 100, "distinct_nontrivial": 60, "graphs_compared": 1500, "expected_edges": 1500, "inverse_adjacency_pairs_checked": 1000, "shapes": 4, "drawn_pictures_compared_with_their_source": 500, "edges_found_in_drawn_pictures": 500})
 
 
 if __name__ == "__main__":
